@@ -22,6 +22,11 @@ def gen_cases(rng, tier):
         if c["method"] == "HOURLY":
             c["months"] = 12
         cs.append(c)
+    # hourly runs longer than the year of loads supplied: the sequence is the year repeated end to end (steps around each year boundary)
+    for months in ([24] if tier == "quick" else [24, 36, 18]):
+        cs.append({"nx": 1, "ny": 2, "months": months, "H": 100.0, "loads": {"kind": rng.choice(kinds), "scale": 12000.0, "seed": rng.randrange(1, 10 ** 6)},
+                   "pipe": "SINGLEUTUBE", "flow": ["BOREHOLE", 0.4], "method": "HOURLY", "ugt": 15.0, "k": 2.2, "steps": 20,
+                   "late_steps": [8759, 8760, 8761, 8762, 8784, int(months / 12.0 * 8760.0)]})
     return cs
 
 
@@ -38,6 +43,23 @@ def oracle(chk, c, o):
         if abs(want - o["hp_eft"][i - 1]) > 1e-9 * max(1.0, abs(want)):
             chk.violation("simulate", c, {"step": i, "hp_eft": o["hp_eft"][i - 1], "formula": want}, "EFT at every step equals the documented superposition of load steps")
             return n
+    # hourly method beyond the first year: the load sequence itself, and the formula at steps around the year boundary
+    sq = o.get("sequence")
+    if sq is not None:
+        n += 1
+        if sq["steps"] != sq["expected_steps"] or sq["first_difference"] is not None:
+            chk.violation("simulate", c, sq, "an hourly simulation superposes the supplied year of loads repeated end to end, one step per hour of the horizon")
+            return n
+        year = o["year_q_W"]
+        for st, d in o.get("late", {}).items():
+            i = int(st)
+            qq = [0.0] + [year[(j - 1) % 8760] for j in range(1, i + 1)]
+            s = sum((qq[k + 1] - qq[k]) * d["K"][k] for k in range(i))
+            want = pr["Tg"] + s / (pr["two_pi_k"] * pr["H"] * pr["nbh"]) + qq[i] * pr["Rb"] / (pr["H"] * pr["nbh"]) - qq[i] / (2 * pr["mdot"] * pr["cp"] * pr["nbh"])
+            n += 1
+            if abs(want - d["hp_eft"]) > 1e-9 * max(1.0, abs(want)):
+                chk.violation("simulate", c, {"step": i, "hp_eft": d["hp_eft"], "formula": want}, "EFT at every step equals the documented superposition of load steps (hourly method, beyond the first year)")
+                return n
     return n
 
 
